@@ -121,17 +121,24 @@ def sh(cmd, cwd=None, timeout=3600, env=None):
     return p.returncode, p.stdout, p.stderr
 
 
-def lean_sources():
-    out = []
-    for root, _, files in os.walk(os.path.join(LEAN, "DFV")):
-        for f in files:
-            if f.endswith(".lean"):
-                out.append(os.path.join(root, f))
-    mdir = os.path.join(LEAN, "Main")
-    for f in os.listdir(mdir):
-        if f.endswith(".lean"):
-            out.append(os.path.join(mdir, f))
-    return sorted(out)
+def lean_sources(pid=None):
+    """Lean files a property's proofs and driver depend on (transitive `import DFV.*` closure of
+    Props/<pid>, Drv/<pid>, Main/<pid>); all DFV files when pid is None."""
+    if pid is None:
+        out = []
+        for root, _, files in os.walk(os.path.join(LEAN, "DFV")):
+            out += [os.path.join(root, f) for f in files if f.endswith(".lean")]
+        return sorted(out)
+    seen, todo = set(), [f"DFV.Props.{pid}", f"DFV.Drv.{pid}", f"Main.{pid}"]
+    while todo:
+        mod = todo.pop()
+        path = os.path.join(LEAN, *mod.split(".")) + ".lean"
+        if path in seen or not os.path.exists(path):
+            continue
+        seen.add(path)
+        for m in re.finditer(r"^\s*import\s+((?:DFV|Main)\.[\w.]+)", open(path).read(), flags=re.M):
+            todo.append(m.group(1))
+    return sorted(seen)
 
 
 def strip_comments(src):
@@ -140,9 +147,9 @@ def strip_comments(src):
     return src
 
 
-def grep_forbidden():
+def grep_forbidden(pid=None):
     hits = []
-    for path in lean_sources():
+    for path in lean_sources(pid):
         for i, line in enumerate(strip_comments(open(path).read()).splitlines(), 1):
             if FORBIDDEN.search(line):
                 hits.append(f"{os.path.relpath(path, LEAN)}:{i}: {line.strip()}")
@@ -176,7 +183,7 @@ def build_and_audit(pid, leanchecker=False):
     rc, out, err = sh(["lake", "build", f"DFV.Props.{pid}", f"drv_{pid.lower()}"], cwd=LEAN, timeout=3000)
     if rc != 0:
         raise MachineryError(f"lake build failed for DFV.Props.{pid}:\n{out[-3000:]}\n{err[-2000:]}")
-    hits = grep_forbidden()
+    hits = grep_forbidden(pid)
     if hits:
         raise MachineryError("forbidden tokens in Lean sources:\n" + "\n".join(hits))
     props = os.path.join(LEAN, "DFV", "Props", f"{pid}.lean")
@@ -195,9 +202,9 @@ def build_and_audit(pid, leanchecker=False):
         raise MachineryError(f"axiom audit failed for {pid}:\n{out[-3000:]}\n{err[-2000:]}")
     axioms = {}
     text = out.replace("\n  ", " ")
-    for m in re.finditer(r"'([^']+)' depends on axioms: \[([^\]]*)\]", text):
+    for m in re.finditer(r"'(\S+)' depends on axioms: \[([^\]]*)\]", text):
         axioms[m.group(1)] = [a.strip() for a in m.group(2).replace("\n", " ").split(",") if a.strip()]
-    for m in re.finditer(r"'([^']+)' does not depend on any axioms", text):
+    for m in re.finditer(r"'(\S+)' does not depend on any axioms", text):
         axioms[m.group(1)] = []
     discharged, bad = 0, []
     for n in names:
